@@ -24,6 +24,12 @@ def run(ctx):
     from ..engines import sizecheck as SC
     SC.s0_compositions(ctx)
     ctx.floor("S0", 4)
+    from ..engines import mapplumbing as M
+    from ..engines import sampler as U
+    M.m6_product_enumeration(ctx)
+    U.u7_parameter_ranges(ctx)
+    ctx.floor("M6", 2)
+    ctx.floor("U7", 3)
     ctx.floor("V8", 1)
     ctx.floor("V7", 2)
     ctx.floor("V1", 14)
